@@ -363,6 +363,7 @@ def _throwers(prog):
     """repository functions that never return normally: no `return`, and the last statement is a throw (or a call of
     another such function).  A dispatch arm that calls one of them reports an error just as an inline `throw` does."""
     _THROWERS.clear()
+    _PROGREF[0] = prog
     changed = True
     while changed:
         changed = False
@@ -389,8 +390,36 @@ def _stmt_throws(st):
     return False
 
 
+_DECODER_ANCHORS = ("atval_signed", "atval_addr", "handle_at_dependent_value", "die_ranges", "atval_unsigned_with_domain",
+                    "atval_unsigned", "handle_encoding_data")
+_PROGREF = [None]
+
+
+def _through_helpers(stmts, depth=3):
+    """the statements of a case group together with the bodies of the helpers of the same source file it calls (a helper is any
+    repository function that is not itself one of the decoders the classification is stated in); a case that delegates to
+    `atval_ranges (die)` does what atval_ranges does"""
+    prog = _PROGREF[0]
+    if prog is None or depth == 0:
+        return list(stmts)
+    out = list(stmts)
+    seen = set()
+    for s in stmts:
+        for c in calls(s):
+            fid = c.get("fid")
+            if not fid or fid in seen or c.get("fn") in _DECODER_ANCHORS or fid in _THROWERS:
+                continue
+            seen.add(fid)
+            g = prog.funcs.get(fid)
+            if g is None or not g.get("body") or not str(g.get("file", "")).endswith("atval.cc"):
+                continue
+            out.extend(_through_helpers(g["body"].get("s", []), depth - 1))
+    return out
+
+
 def _classify_decoder(stmts):
     """what a case group of at_value / handle_encoding_data does"""
+    stmts = _through_helpers(stmts)
     fns = [c.get("fn") for s in stmts for c in calls(s)]
     mk = [c.get("f", "") for s in stmts for c in calls(s) if c.get("f", "").startswith("std::make_unique<")]
     has_throw = any(x.get("k") == "throw" for s in stmts for x in walk(s)) or \
@@ -467,15 +496,45 @@ def f1(prog):
         inst.append((key, {"ends_in_throw": ends_in_throw}))
         for p in probs:
             findings.append({"key": key, "where": f["l"], "msg": p, "detail": None})
+    # handle_encoding_data interpreted on every DW_ATE_* code of dwarf.h and on codes that name no encoding: the signed encodings are
+    # decoded as signed, unsigned / address / UTF as unsigned, boolean in the boolean domain, and a code that is no encoding at all
+    # raises an error (it is never silently decoded)
+    from cxxobj import CxxEvaluator, Struct, Sym, OutOfBounds
+    from absint import Thrown
     f = prog.func_opt("(anonymous namespace)::handle_encoding_data")
-    if f is None:
+    if f is None or f.get("body") is None:
         raise Broken("anchor handle_encoding_data vanished")
-    sws = [x for x in walk(f["body"]) if x.get("k") == "switch"]
-    dflt = [stmts for labels, stmts in switch_groups(sws[0]) if "default" in labels]
-    ok = bool(dflt) and _classify_decoder(dflt[0]) == "error"
-    inst.append(("F1:handle_encoding_data", {"default_throws": ok}))
-    if not ok:
-        findings.append({"key": "F1:handle_encoding_data", "where": f["l"], "msg": "an unknown base-type encoding is no longer reported as an error", "detail": None})
+    ate = {c["n"]: c["v"] for e in prog.enums.values() if e["file"] == "/usr/include/dwarf.h" for c in e["consts"] if c["n"].startswith("DW_ATE_")}
+    if len(ate) < 15:
+        raise Broken("DW_ATE_* constants vanished from dwarf.h")
+    hooks = {"(anonymous namespace)::atval_signed": lambda ev, o, a: ("signed", None),
+             "(anonymous namespace)::atval_unsigned": lambda ev, o, a: ("unsigned", None),
+             "(anonymous namespace)::atval_unsigned_with_domain": lambda ev, o, a: ("unsigned", getattr(a[1], "q", a[1])),
+             "dw_encoding_dom": lambda ev, o, a: Sym.of("dw_encoding_dom"),
+             "zw_cdom::show": lambda ev, o, a: None, "constant_dom::show": lambda ev, o, a: None}
+    ev = CxxEvaluator(hooks, {}, prog=prog)
+    want = {"DW_ATE_signed": "signed", "DW_ATE_signed_char": "signed", "DW_ATE_unsigned": "unsigned", "DW_ATE_unsigned_char": "unsigned",
+            "DW_ATE_address": "unsigned", "DW_ATE_UTF": "unsigned", "DW_ATE_boolean": "unsigned"}
+    bad = None
+    known = set(ate.values())
+    unknown = [x for x in (0, 0x13, 0x55, 0x7f, 0x100, 0xffff) if x not in known and not (ate.get("DW_ATE_lo_user", 0x80) <= x <= ate.get("DW_ATE_hi_user", 0xff))]
+    for name, code in sorted(ate.items()) + [("<no encoding %#x>" % u, u) for u in unknown]:
+        attr = Struct("Dwarf_Attribute", {})
+        attr.code, attr.form, attr.valp, attr.cu = 0x1c, 0x0b, Sym.of("valp"), Sym.of("cu")
+        try:
+            r = ev.call(f, None, [attr, code])
+            out = r[0] if isinstance(r, tuple) else ("block" if r is None else "?")
+        except Thrown:
+            out = "error"
+        except OutOfBounds as x:
+            raise Broken("handle_encoding_data cannot be evaluated: %s" % x)
+        if name in want and out != want[name] and bad is None:
+            bad = "a constant whose type has the encoding %s is decoded as %s; expected %s" % (name, out, want[name])
+        if name.startswith("<no encoding") and out != "error" and bad is None:
+            bad = "the code %#x, which names no base-type encoding, is decoded as %s instead of being reported as an error" % (code, out)
+    inst.append(("F1:handle_encoding_data", {"encodings": len(ate), "non_encodings": len(unknown)}))
+    if bad:
+        findings.append({"key": "F1:handle_encoding_data", "where": f["l"], "msg": bad, "detail": None})
     return inst, findings
 
 
